@@ -288,6 +288,49 @@ def run(chk: core.Check, tier: str, seed: int) -> None:
                 while isinstance(doc, (list, dict)):
                     doc = doc[0] if isinstance(doc, list) else doc["a"]
                 recs.append(rec)
+    # the module-level functions and a plain environment (default limit 100): every entry point is bounded the same way,
+    # and a query without a descendant segment is not bounded at all
+    for depth in (99, 100, 101, 1500, 3000):
+        for kind in ("arr", "obj"):
+            for how in ("module.find", "module.finditer", "module.find_one", "env.find"):
+                for q in ("$..*", "$.a" if kind == "obj" else "$[0]", "$"):
+                    doc = 0
+                    for _i in range(depth):
+                        doc = [doc] if kind == "arr" else {"a": doc}
+                    descends = ".." in q
+                    rec = {"op": "depthbig", "q": core.enc_text(q), "limit": 100 if descends else 10**6, "mode": "det", "nesting": depth,
+                           "count": depth if descends else 1}
+                    fn = {"module.find": lambda: jp.find(q, doc), "module.finditer": lambda: list(jp.finditer(q, doc)),
+                          "module.find_one": lambda: [jp.find_one(q, doc)], "env.find": lambda: jp.JSONPathEnvironment().find(q, doc)}[how]
+                    if how == "module.find_one" and descends:
+                        continue            # lazy: the first node may legitimately come before the error
+                    try:
+                        timed_out, nodes = impl.with_timeout(60.0, fn)
+                        rec.update({"out": "timeout" if timed_out else "ok", "cls": "", "n": 0 if timed_out else len(nodes)})
+                    except BaseException as err:  # noqa: BLE001
+                        rec.update({"out": "raise", "cls": type(err).__name__, "n": 0})
+                    while isinstance(doc, (list, dict)):
+                        doc = doc[0] if isinstance(doc, list) else doc["a"]
+                    recs.append(rec)
+    cyc = []
+    cyc.append(cyc)
+    cyo = {"a": 1}
+    cyo["self"] = [cyo]
+    for doc in (cyc, cyo):
+        for q, must in (("$..*", "raise"), ("$", "ok"), ("$[0]", "ok"), ("$.a", "ok")):
+            for how, fn in (("module.find", lambda: jp.find(q, doc)), ("env.find", lambda: jp.JSONPathEnvironment().find(q, doc)),
+                            ("module.find_one", lambda: jp.find_one(q, doc))):
+                if how == "module.find_one" and ".." in q:
+                    continue
+                try:
+                    timed_out, _nodes = impl.with_timeout(30.0, fn)
+                    out, cls = ("timeout" if timed_out else "ok"), ""
+                except BaseException as err:  # noqa: BLE001
+                    out, cls = "raise", type(err).__name__
+                chk.evaluations += 1
+                if out != must or (out == "raise" and cls != "JSONPathRecursionError"):
+                    chk.violation({"clause": "cyclic data through the module-level functions / a plain environment", "expected": must, "observed": out + " " + cls},
+                                  {"query": q, "entry_point": how, "document": "self-containing " + type(doc).__name__, "expected": must, "observed": [out, cls]})
     for r in recs:
         chk.nontrivial.add((tuple(r["q"]), r["limit"], r["mode"], str(r.get("spine", [])[:2]), r["nesting"]))
     chk.sample({"chain_record": {"query": core.dec_text(recs[10]["q"]), "limit": recs[10]["limit"], "mode": recs[10]["mode"],
